@@ -3,6 +3,7 @@ package rules
 import (
 	"fmt"
 	"go/token"
+	"go/types"
 	"strings"
 
 	"dvcheck/internal/eng"
@@ -280,24 +281,116 @@ func runC07(k *eng.Check, tier string) {
 	// child-address callback (chunks.InsertAddrsCb) is invoked to feed a reference check, its error is tested and the
 	// check (the refCheck call) is reached only on its nil edge
 	mWalk := eng.DynOfType("store/chunks.InsertAddrsCb")
+	mAnyCheck := eng.AnyOf(mChecker, eng.DynOfType("(store/hash.HashSet, error)"))
 	nWalk := 0
 	for _, fn := range nbs {
 		walks := eng.Calls(fn, mWalk, false)
-		if len(walks) == 0 {
+		if len(walks) == 0 || c.IsTestFile(fn.Pos()) {
 			continue
 		}
-		checks := eng.CallSet(fn, eng.AnyOf(mChecker, eng.DynOfType("(store/hash.HashSet, error)")))
-		if checks.Len() == 0 {
+		// the reference check the walked addresses feed may sit in the same function or in a sibling literal of
+		// the same top-level function (a batched check)
+		top := eng.Outermost(fn)
+		var checkFn *ssa.Function
+		for _, g := range eng.WithAnons(top) {
+			if len(eng.Calls(g, mAnyCheck, false)) > 0 {
+				if g == fn || checkFn == nil {
+					checkFn = g
+				}
+			}
+		}
+		if checkFn == nil {
 			continue // the callback is invoked for another purpose (e.g. GC marking, decided under C08)
 		}
 		k.FuncsSeen[fn] = true
+		checks := eng.CallSet(checkFn, mAnyCheck)
 		for _, w := range walks {
 			nWalk++
 			okc := eng.OkCut(w)
 			k.Require("walker-error-consumed", eng.Name(fn)+"#walk", "the error of the child-address walk feeding a reference check is tested", okc.Len() > 0, c.InstrPos(w.(ssa.Instruction)), "the walker's error is dropped: a chunk that cannot be walked is checked as if it referenced nothing")
-			if okc.Len() > 0 {
-				k.OnlyAfter("walker-error-consumed", fn, "after a child-address walk, the reference check is reached only if the walk returned nil", checks, 1, okc, eng.After(w.(ssa.Instruction)))
+			if okc.Len() == 0 {
+				continue
 			}
+			if checkFn == fn {
+				k.OnlyAfter("walker-error-consumed", fn, "after a child-address walk, the reference check is reached only if the walk returned nil", checks, 1, okc, eng.After(w.(ssa.Instruction)))
+				// what was walked is checked before the function returns (no address set is left unchecked)
+				rets := allReturns(fn)
+				if res := fn.Signature.Results(); res.Len() > 0 && eng.IsErrorType(res.At(res.Len()-1).Type()) {
+					rets = eng.SuccessExits(fn) // an error return needs no check
+				}
+				k.OnlyAfter("walked-addresses-checked", fn, "after a successful child-address walk the function returns only after the reference check was called on the collected addresses", rets, 1, checks, eng.EdgeTargets(okc)...)
+			}
+		}
+		if checkFn != fn {
+			// deferred (batched) check: the top-level function must run the checking literal after the iteration on
+			// every path to a success return; paths that already carry an error (a non-nil test of an error variable
+			// the literals write) and the "no checker configured" early exit are exempt
+			cuts := eng.NewSet()
+			for _, b := range top.Blocks {
+				for _, in := range b.Instrs {
+					ci, ok := in.(ssa.CallInstruction)
+					if !ok || ci.Common().IsInvoke() {
+						continue
+					}
+					// the literal may be called through the local (cell) it was assigned to
+					if eng.FuncOf(ci.Common().Value) == checkFn || eng.Slice(ci.Common().Value, false, func(x ssa.Value) bool {
+						mc, isMC := x.(*ssa.MakeClosure)
+						return isMC && mc.Fn == ssa.Value(checkFn)
+					}) {
+						cuts.AddI(in)
+					}
+				}
+			}
+			cuts.Union(eng.CondEdgesP(top, func(v ssa.Value) bool {
+				b, ok := eng.IsCompare(v, token.NEQ)
+				if !ok || !isNil(b.Y) {
+					return false
+				}
+				if ld, isLd := b.X.(*ssa.UnOp); isLd && ld.Op == token.MUL {
+					if a, isA := ld.X.(*ssa.Alloc); isA {
+						return eng.IsErrorType(a.Type().(*types.Pointer).Elem())
+					}
+				}
+				return false
+			}, true))
+			cuts.Union(eng.CondEdgesP(top, func(v ssa.Value) bool {
+				b, ok := eng.IsCompare(v, token.EQL)
+				if !ok || !isNil(b.Y) {
+					return false
+				}
+				if _, isP := b.X.(*ssa.Parameter); isP {
+					return true
+				}
+				// a parameter captured by a literal lives in a cell
+				if ld, isLd := b.X.(*ssa.UnOp); isLd && ld.Op == token.MUL {
+					if a, isA := ld.X.(*ssa.Alloc); isA {
+						sts := eng.StoresTo(a)
+						if len(sts) == 1 {
+							_, isP := sts[0].Val.(*ssa.Parameter)
+							return isP
+						}
+					}
+				}
+				return false
+			}, true))
+			// nothing collected since the last batch: `len(set) == 0` / not `len(set) > 0`
+			lenOfSet := func(v ssa.Value) bool {
+				call, ok := v.(*ssa.Call)
+				return ok && eng.CalleeName(call) == "builtin:len" && len(call.Call.Args) == 1 && strings.HasSuffix(eng.ShortType(call.Call.Args[0].Type()), "store/hash.HashSet")
+			}
+			isZero := func(v ssa.Value) bool {
+				cst, ok := v.(*ssa.Const)
+				return ok && cst.Value != nil && cst.Value.ExactString() == "0"
+			}
+			cuts.Union(eng.CondEdgesP(top, func(v ssa.Value) bool {
+				b, ok := eng.IsCompare(v, token.EQL)
+				return ok && lenOfSet(b.X) && isZero(b.Y)
+			}, true))
+			cuts.Union(eng.CondEdgesP(top, func(v ssa.Value) bool {
+				b, ok := eng.IsCompare(v, token.GTR)
+				return ok && lenOfSet(b.X) && isZero(b.Y)
+			}, false))
+			k.OnlyAfter("walked-addresses-checked", top, "with a deferred (batched) reference check, success is returned only after the checking literal ran after the iteration", eng.SuccessExits(top), 1, cuts)
 		}
 	}
 	if nWalk < 2 {
